@@ -241,6 +241,7 @@ func checkC19(c *Ctx) {
 		"method definitions (t.f / t:m) are not part of the generated domain of this check yet (Kinds without meth)",
 	}
 	scLight = true
+	scNoOneLine = true
 	if c.Replay != "" {
 		raw, err := loadReplayCase(c.Replay)
 		if err != nil {
@@ -255,7 +256,7 @@ func checkC19(c *Ctx) {
 		return
 	}
 	p := c.NewPool(0)
-	scKinds = `{"local","local2","use","assign","do","while","if","repeat","fornum","forin","lfunc","lefunc","gfunc","file"}`
+	scKinds = `{"local","local2","use","assign","assign2","do","while","if","repeat","fornum","forin","lfunc","lefunc","gfunc","file"}`
 	scopeRuns(c, p, c19Build, func(j *Job, r *proto.Result) { c19Judge(c, j, r) })
 	c.poolStats(p)
 	if surveyMode {
